@@ -343,8 +343,8 @@ func cmdCheck(args []string) {
 			if len(samples) < 12 {
 				samples = append(samples, map[string]interface{}{"harness": spec.Name, "kind": "reachability witness (solver model)", "cover": lab, "inputs": wit})
 			}
-			if *noReplay || strings.Contains(lab, "(virtual-time)") {
-				// paths that need minutes of virtual time are not replayed natively
+			if *noReplay || strings.Contains(lab, "(virtual-time)") || strings.Contains(lab, "(schedule)") {
+				// paths that need minutes of virtual time, or a particular schedule, are not replayed natively
 				continue
 			}
 			var oc *replayOutcome
